@@ -94,6 +94,101 @@ func callsIn(repo, fn string) (map[string][]string, error) {
 
 const walletScrypt = "this.walletData.Scrypt"
 
+func methodOf(repo, fn string) (*token.FileSet, *ast.FuncDecl, error) {
+	fset := token.NewFileSet()
+	f, err := parser.ParseFile(fset, filepath.Join(repo, "account", "client.go"), nil, 0)
+	if err != nil {
+		return nil, nil, err
+	}
+	for _, d := range f.Decls {
+		if x, ok := d.(*ast.FuncDecl); ok && x.Name.Name == fn && x.Recv != nil && x.Body != nil {
+			return fset, x, nil
+		}
+	}
+	return nil, nil, fmt.Errorf("method %s not found in account/client.go", fn)
+}
+
+func show(fset *token.FileSet, n ast.Node) string {
+	var b strings.Builder
+	printer.Fprint(&b, fset, n)
+	return b.String()
+}
+
+// returnsError: the block's last statement returns a non-nil last value.
+func returnsError(fset *token.FileSet, b *ast.BlockStmt) bool {
+	if len(b.List) == 0 {
+		return false
+	}
+	rs, ok := b.List[len(b.List)-1].(*ast.ReturnStmt)
+	if !ok || len(rs.Results) == 0 {
+		return false
+	}
+	return show(fset, rs.Results[len(rs.Results)-1]) != "nil"
+}
+
+// guardHeldAddress looks at the top-level statements of addAccountData.
+func guardHeldAddress(repo string) (bool, error) {
+	fset, fd, err := methodOf(repo, "addAccountData")
+	if err != nil {
+		return false, err
+	}
+	lock, label, guard, add := -1, -1, -1, -1
+	for i, st := range fd.Body.List {
+		txt := show(fset, st)
+		switch {
+		case lock < 0 && strings.HasPrefix(txt, "this.lock.Lock()"):
+			lock = i
+		case add < 0 && strings.HasPrefix(txt, "this.walletData.AddAccount("):
+			add = i
+		}
+		if is, ok := st.(*ast.IfStmt); ok {
+			if is.Init != nil && show(fset, is.Init) == "_, ok := this.accAddrs[accData.Address]" && show(fset, is.Cond) == "ok" &&
+				is.Else == nil && returnsError(fset, is.Body) && guard < 0 {
+				guard = i
+			}
+			if strings.Contains(txt, "duplicate label") && label < 0 {
+				label = i
+			}
+		}
+	}
+	if lock < 0 || add < 0 || label < 0 {
+		return false, fmt.Errorf("addAccountData: unexpected shape (lock %d, label check %d, AddAccount %d)", lock, label, add)
+	}
+	if guard < 0 {
+		return false, nil
+	}
+	if !(lock < label && label < guard && guard < add) {
+		return false, fmt.Errorf("addAccountData: the address guard is not between the label check and AddAccount (lock %d, label %d, guard %d, add %d)", lock, label, guard, add)
+	}
+	return true, nil
+}
+
+func guardEmptyPassword(repo string) (bool, error) {
+	fset, fd, err := methodOf(repo, "ChangePassword")
+	if err != nil {
+		return false, err
+	}
+	if len(fd.Body.List) == 0 {
+		return false, fmt.Errorf("ChangePassword: empty body")
+	}
+	is, ok := fd.Body.List[0].(*ast.IfStmt)
+	if ok && is.Init == nil && is.Else == nil && show(fset, is.Cond) == "len(newPasswd) == 0" && returnsError(fset, is.Body) {
+		return true, nil
+	}
+	// the guard anywhere else is a shape the model does not have
+	found := false
+	ast.Inspect(fd.Body, func(n ast.Node) bool {
+		if be, ok := n.(*ast.BinaryExpr); ok && strings.Contains(show(fset, be), "len(newPasswd)") {
+			found = true
+		}
+		return true
+	})
+	if found {
+		return false, fmt.Errorf("ChangePassword: tests len(newPasswd) somewhere else than in a first-statement guard")
+	}
+	return false, nil
+}
+
 // usesWalletScrypt decides, for one method, whether its key-encryption/decryption calls pass the
 // wallet's scrypt parameters (true) or the package defaults (false); anything else is an error
 // (the generated file then lacks the definition and the proofs stop compiling).
@@ -175,6 +270,23 @@ func init() {
 				continue
 			}
 			cs = append(cs, gen.Const{Name: st.name, Type: "bool", Value: fmt.Sprint(v), Comment: st.comment})
+		}
+		// the two guards: absent = false (the model then follows the unguarded code and the theorems
+		// that need the guards stop checking); an unreadable function is an error
+		for _, gd := range []struct {
+			name, comment string
+			read          func(string) (bool, error)
+		}{
+			{"addaccount_refuses_held_address", "account/client.go addAccountData: is there, under the lock, after the duplicate-label check and before walletData.AddAccount, a guard `if _, ok := this.accAddrs[accData.Address]; ok { return <error> }`?", guardHeldAddress},
+			{"changepassword_refuses_empty", "account/client.go ChangePassword: is the first statement `if len(newPasswd) == 0 { return <error> }`?", guardEmptyPassword},
+		} {
+			v, err := gd.read(repo)
+			if err != nil {
+				errs = append(errs, err.Error())
+				cs = append(cs, gen.Const{Name: "translator_broken_" + gd.name, Type: "unit", Value: "tt", Comment: err.Error()})
+				continue
+			}
+			cs = append(cs, gen.Const{Name: gd.name, Type: "bool", Value: fmt.Sprint(v), Comment: gd.comment})
 		}
 		return gen.EmitConsts("Local Open Scope N_scope.", cs), errs
 	})
